@@ -1,3 +1,3 @@
 SPECIFICATION Spec
-INVARIANTS SelectIsFirst UntaggedPresentation TagsPresentedSorted IntervalIsFirstRetention
+INVARIANTS SelectIsFirst AbsentIsZero UntaggedPresentation TagsPresentedSorted IntervalIsFirstRetention
 CHECK_DEADLOCK FALSE
